@@ -134,16 +134,20 @@ def enabled (s : Sys) (t : Tid) : Bool :=
 
 def setThread (s : Sys) (t : Tid) (th : Thread) : Sys := { s with threads := upd s.threads t th }
 
+/-- record the result of a completed request -/
+def pushRes (th : Thread) : Option (HostId × Ino) → Thread
+  | some r => { th with results := r :: th.results }
+  | none => th
+
+/-- the client learns the number a completed lookup returned -/
+def learn (known : HostId → Option Ino) : Option (HostId × Ino) → (HostId → Option Ino)
+  | some (f, i) => upd known f (some i)
+  | none => known
+
 /-- the request of thread `t` returns: record the result and fetch the next request -/
 def finish (s : Sys) (t : Tid) (res : Option (HostId × Ino)) : Sys :=
-  let th := s.threads t
-  let known := match res with
-    | some (f, i) => upd s.known f (some i)
-    | none => s.known
-  let th := { th with results := (match res with
-    | some r => r :: th.results
-    | none => th.results) }
-  { s with known := known, threads := upd s.threads t (advance th) }
+  { s with known := learn s.known res,
+           threads := upd s.threads t (advance (pushRes (s.threads t) res)) }
 
 def setPc (s : Sys) (t : Tid) (pc : PC) : Sys :=
   setThread s t { s.threads t with pc := pc }
